@@ -479,10 +479,20 @@ mutual
       split at he
       · cases he
       · rename_i st1 h1
+        have hb1 := braceClear_J (preStep_J h h1)
         dsimp only [] at he
         split at he
         · cases he
-        · cases he; exact braceClear_J (preStep_J h h1)
+        · rename_i st2 hent
+          have hb2 : J T st2 := by
+            split at hent
+            · split at hent
+              · exact focus_J hb1 hent
+              · cases hent; exact hb1
+            · cases hent; exact hb1
+          split at he
+          · cases he
+          · cases he; exact hb2
     | .list (.cons ds1 i1 rest), st, st', ds, h, he => by
       rw [parseItem] at he
       split at he
